@@ -419,6 +419,15 @@ fn cmd_replay_inner(args: &[String]) -> i32 {
     let parsed = std::str::from_utf8(&raw).ok().and_then(|t| serde_json::from_str::<Value>(t).ok()).filter(|v| v.get("engine").is_some());
     let Some(v) = parsed else {
         // not one of our JSON files: a raw libFuzzer input of the C07 target
+        if let Some(p) = ["C01", "C02", "C03", "C04", "C05"].iter().find(|p| **p == prop.as_str()) {
+            return match svcore::props::gc::fuzz_one(p, &raw) {
+                None => 0,
+                Some(f) => {
+                    println!("{}", json!({"kind": f.kind, "detail": f.detail}));
+                    1
+                }
+            };
+        }
         if prop == "C07" {
             return match svcore::props::asan::fuzz_one(&raw) {
                 None => 0,
@@ -475,6 +484,14 @@ fn cmd_gen_corpus(args: &[String]) -> i32 {
         Config { failure_persistence: None, ..Config::default() },
         TestRng::from_seed(RngAlgorithm::ChaCha, &svcore::campaign::seed32(verif_seed(), "C07/corpus", 0)),
     );
+    if args.get(4).map(String::as_str) == Some("gc") {
+        let strat = svcore::gen::hist_strategy(80);
+        for i in 0..n {
+            let case = strat.new_tree(&mut runner).unwrap().current();
+            let _ = std::fs::write(Path::new(dir).join(format!("seed-{i:04}")), svcore::props::gc::encode(&case));
+        }
+        return 0;
+    }
     let strat = svcore::props::asan::AsanEngine.strategy(Tier::Quick);
     for i in 0..n {
         let case = strat.new_tree(&mut runner).unwrap().current();
